@@ -43,6 +43,9 @@ func (ec *ExecCase) Rename(acct, asset map[string]string) {
 			if val, ok := ec.Vars[d.Name]; ok {
 				ec.Vars[d.Name] = byType(d.Type, val)
 			}
+			if val, ok := ec.Warm[d.Name]; ok {
+				ec.Warm[d.Name] = byType(d.Type, val)
+			}
 			continue
 		}
 		if d.Origin.Fn == "meta" && len(d.Origin.Args) == 2 && d.Origin.Args[0].Kind == EAcct && d.Origin.Args[1].Kind == EStr {
